@@ -113,6 +113,9 @@ func cmdVC(args []string) {
 		for _, o := range vc.Obls {
 			r := res[o.Offset]
 			fmt.Printf("%-10s %-8s %-7s %-50s %s  [%s]\n", o.Kind, r.Status, r.Solver, o.Name, o.Pos, o.Descr)
+			if m := os.Getenv("GVC_MODEL"); m != "" && m == o.Name {
+				fmt.Println(modelFor(vc, o, dir, 10000))
+			}
 		}
 		fmt.Printf("  inlined: %v\n  trusted: %v\n  havocked: %v\n", vc.Inlined, vc.Trusted, vc.Havocked)
 	}
